@@ -29,7 +29,7 @@ EXPLANATION = (
     'interval is at most 1000 nodes, and shouldStop returns true exactly on elapsed >= the limit selected by searchNeedMoreTime.'
     ' The limit shouldStop compares the elapsed time with is, on every path, bounded by the hard limit (hard, soft, or min(.., hard)).'
     ' Added later; (4) on every go path the option queue is drained (stopThread -> waitStop -> waitOptionsSet) before the protocol thread reads option values in computeTimeLimit / startThread.'
-    ' Added later; (5) Communicator::sendInitSearch must-writes the node / tbhit accumulators and every search passes it. (6) every position-decoding sweep of the on-demand tablebase generation gives up both for limit 0 (stop) and for a positive limit that has passed (ponderhit) - found and fixed defect D19. (7) the time origin of a search is the reception time of its go: unbroken chain clock reading -> SearchParams -> startThread -> Search::timeLimit -> tStart. (8) = C14.5 the option values the limits are computed from are the ones set last.')
+    ' Added later; (5) Communicator::sendInitSearch must-writes the node / tbhit accumulators and every search passes it. (6) every position-decoding sweep of the on-demand tablebase generation gives up both for limit 0 (stop) and for a positive limit that has passed (ponderhit) - found and fixed defect D19. (7) the time origin of a search is the reception time of its go: unbroken chain clock reading -> SearchParams -> startThread -> Search::timeLimit -> tStart. (8) = C14.5 the option values the limits are computed from are the ones set last. (9) a soft limit written inside Search is the minimum of its computed value and the hard limit.')
 UNDECIDED = ('wall-clock latency and the virtual-clock bound "within one polling interval" (timing is not a static quantity); the '
              'behaviour of the search between two polls.')
 ASSUMPTIONS = ['input domain of the property: wtime/btime 1..10^7 ms, inc 0..10^5, movestogo 0..100, BufferTime and the time-usage parameters inside their declared Param<> ranges',
@@ -64,6 +64,7 @@ def run(fb, rep, tier):
     # waiting for an idle engine keeps the latest value per option (shared with C14.5)
     from . import C14 as _C14
     _C14.c5_option_queue_last_wins(fb, rep, 'C06.8')
+    c9_soft_limit_stays_below_hard(fb, rep)
 
 
 def _strip(t):
@@ -842,3 +843,35 @@ def c7_time_origin(fb, rep):
                     ok = isinstance(a, dict) and a.get('k') == 'var' and a.get('id') in clock_locals and hc.pos_dominates(clock_locals[a['id']], (b, i))
                     rep.ob(clause, 'K13 provenance', 'handleCommand builds the SearchParams of a go from a clock reading taken when the command arrived', ok, R.site(hc, e), show(init, 60), hc.sname)
     rep.floor(clause, 'SearchParams objects built in handleCommand', n_sp, 1)
+
+
+# ----------------------------------------------------------------------------- .9
+
+def c9_soft_limit_stays_below_hard(fb, rep):
+    """K12 soft <= hard also where the search moves its own soft limit.  EngineControl's arithmetic keeps 1 <= soft <= hard
+    (C06.1); the search extends its soft limit once, by the time an on-demand tablebase took to generate (D16).  Every
+    write of the soft limit inside Search other than the setter must be the minimum of something and a reading of the hard
+    limit: for `go movetime` the stop test compares with the soft limit only, so a soft limit above the hard one is the
+    time the move actually takes."""
+    clause = 'C06.9'
+    n = 0
+    for f in sorted(fb.funcs.values(), key=lambda x: x.key):
+        if not f.has_cfg or not R.in_prog(f) or f.d.get('cls') != 'Search' or f.sname in ('Search::timeLimit', 'Search::Search'):
+            continue
+        hard_copies = {v['id'] for _, _, e in f.events() if e.get('k') == 'decl' for v in e.get('vars', [])
+                       if v.get('init') is not None and any(isinstance(x, dict) and x.get('k') == 'mem' and ap(x) == 'this.maxTimeMillis' for x in walk(v['init']))}
+        for b, i, e in f.events():
+            tgt = e.get('l') if e.get('k') == 'asg' else (e.get('recv') if e.get('k') == 'call' and e.get('op') == '=' else None)
+            if tgt is None or ap(tgt) != 'this.minTimeMillis':
+                continue
+            val = e.get('r') if e.get('k') == 'asg' else (e.get('args') or [None])[0]
+            v0 = _strip(val)
+            if isinstance(v0, dict) and 'cv' in v0 and v0['cv'] < 0:
+                continue            # "no limit" (initialisation)
+            n += 1
+            capped = isinstance(v0, dict) and v0.get('k') == 'call' and cname(v0) == 'std::min' and \
+                any((_strip(a) or {}).get('id') in hard_copies or ap(_strip(a)) == 'this.maxTimeMillis' or
+                    any(isinstance(x, dict) and x.get('k') == 'mem' and ap(x) == 'this.maxTimeMillis' for x in walk(a)) and (_strip(a) or {}).get('k') in ('call', 'cast', 'mem')
+                    for a in v0.get('args', []))
+            rep.ob(clause, 'K12 range', '%s: a new soft limit is the minimum of its computed value and the hard limit' % f.sname, capped, R.site(f, e), show(val, 90), f.sname)
+    rep.floor(clause, 'writes of the soft limit inside Search outside the setter', n, 1)
